@@ -310,7 +310,8 @@ func vfDrawC08World(t *rapid.T) (r *vfC08Run) {
 			return true
 		}
 		for _, id := range ids {
-			if p, found := storage.Find(id); found {
+			ip, _ := netip.ParseAddr(id)
+			if p, found := storage.FindLoose(ip, id); found {
 				return !p.IgnoreStatistics
 			}
 		}
